@@ -861,6 +861,10 @@ def check_pbkdf2_small(ck_ob, mod, label, thorough=False):
             ex = irx.Exec(f, Handler(), havoc="auto", auto=True, split_max=33, arg_consts={oi: L, ci: cnt})
             ps = ex.run(max_paths=50)
             if len(ps) != 1 or ps[0].end[0] != "ret":
+                # a bottom-tested loop has no test at its head to decide: with count and length concrete every block is simply followed
+                ex = irx.Exec(f, Handler(), havoc="auto", auto=True, unroll=True, split_max=33, arg_consts={oi: L, ci: cnt})
+                ps = ex.run(max_paths=50)
+            if len(ps) != 1 or ps[0].end[0] != "ret":
                 raise Broken("tinyjambu_pbkdf2: with count %d and outlen %d the function is not one straight path (%d paths): not decided by the small-length rule" % (cnt, L, len(ps)))
             p = ps[0]
             if any(e[0] in ("cond-data", "load-unknown", "store-unknown", "load-sym", "out-sym", "read-uninit", "VARMEM") for e in p.events):
